@@ -1488,6 +1488,8 @@ rrul_fill_wly(echs_instant_t *restrict tgt, size_t nti, rrulsp_t rr)
 	/* increments induced by wd_mask */
 	uint_fast32_t wd_incs = 0UL;
 	struct enum_s e;
+	/* BYSETPOS over the date/time combinations of a week */
+	bool posp;
 
 	if (UNLIKELY((unsigned int)rr->count < nti)) {
 		if (UNLIKELY((nti = rr->count) == 0UL)) {
@@ -1503,6 +1505,7 @@ rrul_fill_wly(echs_instant_t *restrict tgt, size_t nti, rrulsp_t rr)
 
 	/* generate a set of minutes and seconds */
 	(void)make_enum(&e, proto, rr);
+	posp = bi383_has_bits_p(&rr->pos);
 
 	/* set up the wday mask */
 	with (unsigned int tmp) {
@@ -1584,6 +1587,28 @@ rrul_fill_wly(echs_instant_t *restrict tgt, size_t nti, rrulsp_t rr)
 		unsigned int this_d = d;
 		unsigned int this_m = m;
 		unsigned int this_y = y;
+		size_t npos = 0U, ipos = 0U;
+
+		if (posp) {
+			/* the period is the week, count its days first,
+			 * only the ones in months we're interested in */
+			uint_fast32_t i = wd_incs;
+			unsigned int td = d, tm = m, ty = y, tmaxd = maxd;
+
+			do {
+				td += i & 0b1111U;
+				while (tmaxd && td > tmaxd) {
+					td -= tmaxd;
+					if (++tm > 12U) {
+						ty++;
+						tm = 1U;
+					}
+					tmaxd = echs_scale_ndim(srcsca, ty, tm);
+				}
+				npos += !!(m_mask & (1U << tm));
+			} while ((i >>= 4U));
+			npos *= (size_t)e.nH * e.nM * e.nS;
+		}
 
 		do {
 			this_d += incs & 0b1111U;
@@ -1615,15 +1640,20 @@ rrul_fill_wly(echs_instant_t *restrict tgt, size_t nti, rrulsp_t rr)
 					.ms = proto.ms,
 				};
 
+				if (!(m_mask & (1U << this_m))) {
+					/* skip this day, the rest of the week
+					 * might be in another month */
+					break;
+				} else if (posp && !pos_selected_p(
+						   &rr->pos, ++ipos, npos)) {
+					/* limited by setpos */
+					continue;
+				}
 				if (UNLIKELY(echs_instant_lt_p(x, proto))) {
 					continue;
 				}
 				if (UNLIKELY(echs_instant_lt_p(until, x))) {
 					goto fin;
-				} else if (!(m_mask & (1U << this_m))) {
-					/* skip this day, the rest of the week
-					 * might be in another month */
-					break;
 				}
 				/* attach scale and convert back to greg */
 				x = echs_instant_attach_scale(x, srcsca);
